@@ -60,6 +60,7 @@ def tcp_delivery(draw, modes=("rec", "rec", "flight", "flight", "cuts", "cuts", 
         t["redups"] = draw(st.lists(st.tuples(st.integers(0, 60), st.integers(1, 3), st.integers(0, 4)).map(list), max_size=2))
     if moves:
         t["moves"] = draw(st.lists(st.tuples(st.integers(0, 60), st.integers(1, 4)).map(list), max_size=3))
+        t["ack_model"] = draw(st.sampled_from(["capture", "wire"]))
     return t
 
 
